@@ -146,75 +146,78 @@ def r1_absorbing(chk: Check):
     chk.min_instances(n_sites, 9, "stores to a job's state")
 
 
+def _is_code_zero_test(t) -> bool:
+    """canonical test `<name> == 0` against the int constant 0"""
+    return (isinstance(t, ast.Compare) and len(t.ops) == 1 and isinstance(t.ops[0], ast.Eq) and isinstance(t.comparators[0], ast.Constant)
+            and t.comparators[0].value == 0 and type(t.comparators[0].value) is int and isinstance(t.left, ast.Name))
+
+
 def r2_truthful(chk: Check):
     """R2: DONE <=> exit code 0 (or success marker), ERROR otherwise"""
     tree = chk.tree
     js = JobStates(tree)
-    n = 0
+    n_map = 0
+    code_tests = {}
     for modq in [("scheduler.base", "Scheduler.aio_start"), ("scheduler.base", "Scheduler.aio_submit")]:
         f = tree.func(*modq)
-        for x in body_walk(f.node):
-            if isinstance(x, ast.IfExp) and {js.const(x.body), js.const(x.orelse)} == {"DONE", "ERROR"}:
-                n += 1
-                t = x.test
-                ok = (isinstance(t, ast.Compare) and len(t.ops) == 1 and isinstance(t.ops[0], ast.Eq) and isinstance(t.comparators[0], ast.Constant)
-                      and t.comparators[0].value == 0 and type(t.comparators[0].value) is int and isinstance(t.left, ast.Name) and js.const(x.body) == "DONE")
-                ok = ok or (isinstance(t, ast.Compare) and len(t.ops) == 1 and isinstance(t.ops[0], ast.NotEq) and isinstance(t.comparators[0], ast.Constant)
-                            and t.comparators[0].value == 0 and isinstance(t.left, ast.Name) and js.const(x.body) == "ERROR")
-                chk.require(ok, chk.fkey(f, "exit code mapping " + src(x)), f"`{src(x)}`: the final state must be DONE exactly when the exit code == 0 "
-                            "(a missing code, None, is not a success)", chk.loc(f.module, x))
-    chk.min_instances(n, 2, "exit-code to state mappings")
+        gf = CFG(f.node)
+        rdf = ReachingDefs(gf)
+        sites = []
+        for nn in gf.live:
+            if nn.kind == "stmt" and isinstance(nn.ast, (ast.Return, ast.Assign)) and nn.ast.value is not None and js.const(nn.ast.value) is not None:
+                sites.append((nn, js.const(nn.ast.value)))
+        mapped_done, mapped_err = [], []
+        for nn, k in sites:
+            guards = [(t, pol) for t, pol in gf.guards(nn) if t.kind == "test"]
+            gs = [(rdf.canon(t.ast, t), pol) for t, pol in guards]
+            # the innermost guard decides: an exit-code test?
+            code_guard = [(t, pol) for t, pol in guards if _is_code_zero_test(t.ast)]
+            truthy_code = [(t, pol) for t, pol in guards if isinstance(t.ast, ast.Name) and any(_is_code_zero_test(t2.ast) and t2.ast.left.id == t.ast.id for t2 in gf.live if t2.kind == "test")]
+            marker = any("donepath" in c and (c.endswith(".exists()") or c.endswith(".is_file()")) and pol is True for c, pol in gs)
+            if k == "DONE":
+                ok = marker or any(pol is True for _, pol in code_guard)
+                chk.require(ok, chk.fkey(f, "DONE without evidence"), f"`{src(nn.ast)}` (line {nn.lineno}) decides DONE under {gs}: success may only come from exit code == 0 "
+                            "(a missing code, None, is not a success) or from the success marker", chk.loc(f.module, nn.ast))
+                if any(pol is True for _, pol in code_guard):
+                    mapped_done.append(nn)
+                    for t, pol in code_guard:
+                        code_tests[(modq[1], t.id)] = (gf, rdf, t)
+            elif k == "ERROR" and any(pol is False for _, pol in code_guard):
+                mapped_err.append(nn)
+            elif modq[1].endswith("aio_start") and not code_guard:
+                chk.require(k in ("WAITING", "ERROR"), chk.fkey(f, f"verdict {k}"), f"`{src(nn.ast)}` (line {nn.lineno}): aio_start may only answer WAITING (start aborted), ERROR, or the mapped exit code", chk.loc(f.module, nn.ast))
+            if truthy_code and k in ("DONE", "ERROR") and not code_guard:
+                chk.violation(chk.fkey(f, "exit code tested by truthiness"), f"`{src(nn.ast)}` is decided by the truthiness of the exit code: None (unknown) would count as 0", chk.loc(f.module, nn.ast))
+        if mapped_done:
+            n_map += 1
+            chk.require(bool(mapped_err), chk.fkey(f, "exit code mapping"), "a non-zero exit code must give ERROR", chk.loc(f.module, f.node))
+    chk.min_instances(n_map, 2, "exit-code to state mappings")
     # aio_start never returns None and returns only WAITING / DONE / ERROR (or what aio_run returned)
     st = tree.func("scheduler.base", "Scheduler.aio_start")
     rs = return_set(js, st.node)
     chk.require("None" not in rs, chk.fkey(st, "return set"), f"aio_start may return None ({sorted(rs)}): aio_submit would report ERROR without the job being final", chk.loc(st.module, st.node),
                 okmsg=f"returns {sorted(rs)}")
-    # provenance of success: the constant DONE appears only as the `== 0` arm of an exit-code mapping, or stored under the presence of the success marker;
-    # aio_start itself decides nothing else than WAITING (start aborted) / ERROR (start or run failed)
-    for modq in [("scheduler.base", "Scheduler.aio_start"), ("scheduler.base", "Scheduler.aio_submit")]:
-        f = tree.func(*modq)
-        gf = CFG(f.node)
-        rdf = ReachingDefs(gf)
-        for nn in gf.live:
-            for x in nn.walk():
-                if not (isinstance(x, ast.Attribute) and js.const(x) is not None and isinstance(x.ctx, ast.Load)):
-                    continue
-                par = getattr(x, "_parent", None)
-                if isinstance(par, ast.Compare) or (isinstance(par, ast.IfExp) and x is not par.test and {js.const(par.body), js.const(par.orelse)} == {"DONE", "ERROR"}):
-                    continue  # a test / an arm of the exit-code mapping (decided above)
-                k = js.const(x)
-                is_value = (nn.kind == "stmt" and isinstance(nn.ast, (ast.Return, ast.Assign)) and nn.ast.value is x)
-                if not is_value:
-                    continue
-                if k == "DONE":
-                    gs = [(rdf.canon(t.ast, t), pol) for t, pol in gf.guards(nn) if t.kind == "test"]
-                    ok = any("donepath" in c and (c.endswith(".exists()") or c.endswith(".is_file()")) and pol is True for c, pol in gs)
-                    chk.require(ok, chk.fkey(f, "DONE without evidence"), f"`{src(nn.ast)}` (line {nn.lineno}) decides DONE under {gs}: success may only come from exit code 0 or from the success marker", chk.loc(f.module, x))
-                elif modq[1].endswith("aio_start"):
-                    chk.require(k in ("WAITING", "ERROR"), chk.fkey(f, f"verdict {k}"), f"`{src(nn.ast)}` (line {nn.lineno}): aio_start may only answer WAITING (start aborted), ERROR, or the mapped exit code", chk.loc(f.module, x))
     # code unknown -> success marker decides: every definition through which the constant 0 can reach the exit-code
     # variable under `code is None` is guarded by the presence of the success marker
-    g = CFG(st.node)
-    rd = ReachingDefs(g)
     zero_defs = []
 
-    def collect(name, at, seen):
+    def collect(rd, name, at, seen):
         for d in rd.defs_at(name, at):
             if d.node is None or (d.node.id, d.name) in seen:
                 continue
             seen.add((d.node.id, d.name))
             v = d.value
             if isinstance(v, ast.Constant) and v.value == 0 and type(v.value) is int:
-                zero_defs.append(d.node)
+                zero_defs.append((rd, d.node))
             elif isinstance(v, ast.Name):
-                collect(v.id, d.node, seen)
+                collect(rd, v.id, d.node, seen)
 
-    mapping = [x for x in body_walk(st.node) if isinstance(x, ast.IfExp) and {js.const(x.body), js.const(x.orelse)} == {"DONE", "ERROR"} and isinstance(x.test, ast.Compare) and isinstance(x.test.left, ast.Name)]
-    for x in mapping:
-        for nn in g.nodes_of(x):
-            collect(x.test.left.id, nn, set())
+    for (fname, _), (gf, rdf, t) in code_tests.items():
+        if fname.endswith("aio_start"):
+            collect(rdf, t.ast.left.id, t, set())
+            g = gf
     ok = bool(zero_defs)
-    for zn in zero_defs:
+    for rd, zn in zero_defs:
         gs = [(rd.canon(t.ast, t), pol) for t, pol in g.guards(zn) if t.kind == "test"]
         ok = ok and any("donepath" in c and (c.endswith(".is_file()") or c.endswith(".exists()")) and pol is True for c, pol in gs)
     chk.require(ok, chk.fkey(st, "code unknown -> marker"), "when the exit code is unknown, success (code 0) must be decided by the presence of the success marker", chk.loc(st.module, st.node))
